@@ -277,18 +277,26 @@ func ZZH_C16_chain_cascade() {
 	// services already at submission) and then approved
 	var ev governance.EventType
 	var serr error
+	last := governance.GovernanceAvailable // the chain's status when the concluded operation was submitted
 	if zz.Choice("chainOperation", 2) == 0 {
 		ev = governance.EventFreeze
 		w.caller = zzAdminIDs[0]
 		_, serr = zzInvoke(w, cs[zzAppchainAddr], zzAppchainAddr, zzAdminIDs[0], "FreezeAppchain", []*pb.Arg{pb.String("chA"), pb.String("reason")})
 	} else {
 		ev = governance.EventLogout
+		// the logout may be requested while a freeze of the chain is still being voted on (status freezing)
+		if zz.Choice("freezePendingAtLogout", 2) == 1 {
+			w.caller = zzAdminIDs[0]
+			_, ferr := zzInvoke(w, cs[zzAppchainAddr], zzAppchainAddr, zzAdminIDs[0], "FreezeAppchain", []*pb.Arg{pb.String("chA"), pb.String("reason")})
+			zz.Assert("C16.cascade.freeze-submitted", ferr == nil)
+			last = governance.GovernanceFreezing
+		}
 		w.caller = zzChainAdminA
 		_, serr = zzInvoke(w, cs[zzAppchainAddr], zzAppchainAddr, zzChainAdminA, "LogoutAppchain", []*pb.Arg{pb.String("chA"), pb.String("reason")})
 	}
 	zz.Assert("C16.cascade.chain-operation-submitted", serr == nil)
 	_, err := zzInvoke(w, cs[zzAppchainAddr], zzAppchainAddr, zzGovAddr, "Manage",
-		[]*pb.Arg{pb.String(string(ev)), pb.String(string(APPROVED)), pb.String(string(governance.GovernanceAvailable)), pb.String("chA"), pb.Bytes(nil)})
+		[]*pb.Arg{pb.String(string(ev)), pb.String(string(APPROVED)), pb.String(string(last)), pb.String("chA"), pb.Bytes(nil)})
 	zz.Assert("C16.cascade.chain-operation-concludes", err == nil)
 	var chain appchainMgr.Appchain
 	w.getObj(zzAppchainAddr, appchainMgr.AppchainKey("chA"), &chain)
